@@ -314,13 +314,17 @@ class Ctx:
             self.samples.append(sample)
 
     # -- Coq
-    def build(self, targets=None):
-        """build the property's theorem file; record obligations by name with their assumptions"""
-        props_v = os.path.join(COQ, 'Props', self.prop + '.v')
-        targets = targets or ['Props/%s.vo' % self.prop]
+    def build(self, targets=None, extra_props=()):
+        """build the property's theorem file(s); record obligations by name with their assumptions.
+        extra_props: further statement files Props/<name>.v of the same property (e.g. C12gen: the sentences of C12 about the
+        cost generated from the source, kept apart because the two models they bridge reuse short names)"""
+        self._props = [self.prop] + list(extra_props)
+        targets = targets or ['Props/%s.vo' % p for p in self._props]
         ok, log = coq_make(targets)
         self.checker_cmds.append('make -j%d %s (in /verif/coq, generated by coq_makefile -f _CoqProject)' % (NPROC, ' '.join(targets)))
-        names = re.findall(r'^\s*(?:Theorem|Corollary)\s+([A-Za-z_0-9\']+)', re.sub(r'\(\*.*?\*\)', '', open(props_v).read(), flags=re.S), flags=re.M)
+        names = []
+        for p_ in self._props:
+            names += re.findall(r'^\s*(?:Theorem|Corollary)\s+([A-Za-z_0-9\']+)', re.sub(r'\(\*.*?\*\)', '', open(os.path.join(COQ, 'Props', p_ + '.v')).read(), flags=re.S), flags=re.M)
         gate = gate_scan()
         if gate:
             ok = False
@@ -332,7 +336,7 @@ class Ctx:
             self.broken_log = log
             return False
         # Print Assumptions, freshly, for every theorem of Props/Cxx.v
-        src = 'Require Import Plinio.Props.%s.\n' % self.prop + ''.join('Print Assumptions %s.\n' % n for n in names)
+        src = ''.join('Require Import Plinio.Props.%s.\n' % p_ for p_ in self._props) + ''.join('Print Assumptions %s.\n' % n for n in names)
         p = os.path.join(self.bdir, 'assum_%s.v' % self.prop)
         open(p, 'w').write(src)
         rc, out = coqc_file(p, 600)
@@ -364,11 +368,11 @@ class Ctx:
         # report 'inconsistent assumptions'; if it does, the targets are rebuilt and coqchk runs once more
         for attempt in (0, 1):
             with Lock('coq.lock'):
-                rc, out = sh(['coqchk', '-o', '-silent', '-Q', COQ, 'Plinio', 'Plinio.Props.%s' % self.prop], timeout, cwd=COQ)
+                rc, out = sh(['coqchk', '-o', '-silent', '-Q', COQ, 'Plinio'] + ['Plinio.Props.%s' % p_ for p_ in getattr(self, '_props', [self.prop])], timeout, cwd=COQ)
             if rc in (0, 124) or attempt == 1 or 'nconsistent assumptions' not in out:
                 break
             coq_make(getattr(self, '_targets', None) or ['Props/%s.vo' % self.prop])
-        self.checker_cmds.append('coqchk -o -silent -Q /verif/coq Plinio Plinio.Props.%s' % self.prop)
+        self.checker_cmds.append('coqchk -o -silent -Q /verif/coq Plinio ' + ' '.join('Plinio.Props.%s' % p_ for p_ in getattr(self, '_props', [self.prop])))
         summ = out[out.find('CONTEXT SUMMARY'):] if 'CONTEXT SUMMARY' in out else out[-1500:]
         m = re.search(r'\* Axioms:(.*?)\n\s*\n\* Constants', summ, flags=re.S)
         axioms = re.sub(r'\s+', ' ', m.group(1)).strip() if m else '?'
